@@ -68,7 +68,7 @@ def stability_pairs(recs):
                 n += 1
                 key = f"{r['id']}|{json.dumps(o['cfg'], sort_keys=True)}"
                 for ob in (r['obs'][k], o):
-                    d = {x: ob[x] for x in ob if x not in ('cfg', 'TS', 'TW', 'RT')}
+                    d = {x: ob[x] for x in ob if x not in ('cfg', 'TS', 'TW', 'RT', 'FQ')}
                     # forms / tags of words are judged per record (known deviations)
                     d['W'] = [t[:5] for t in ob['W']]
                     # translate() asks other lexicons on purpose
